@@ -76,6 +76,11 @@ def success_case(asm, acc, case):
             lines = ['include shared.asm'] + lines + ['db SHARED_ID', 'align 2']
         if case['defs']:
             lines = ['include GD32VF103.asm'] + lines
+            if incs and case['idx'] % 2 == 0:
+                # the project's own copy of that file in a directory given with -i (C14: that is where an include file is found)
+                open(os.path.join(incs[0], 'GD32VF103.asm'), 'w').write('# board specific copy\nRCU_BASE_ADDR = 0x50021000\n')
+                lines = lines + ['dw RCU_BASE_ADDR']
+                acc['ctr']['own_copy_of_a_bundled_definitions_file'] += 1
         srcdir = os.path.join(root, 'src')
         os.makedirs(srcdir)
         spanning = case['idx'] % 2 == 0 and not case['defs']
@@ -146,7 +151,44 @@ def success_case(asm, acc, case):
         elif stale_kind == 'junk-long':
             open(outp, 'wb').write(b'\xa5' * (len(ref.out) + 64))
         core.see(acc, 'stale_output_kinds', stale_kind)
-        r = cli.run_cli(args, cwd)
+        feeder = None
+        if case['idx'] % 11 == 4 and not os.path.islink(main):
+            # the source arrives through a pipe (`cpp prog.S | bronzebeard /dev/stdin`, a shell's <(...)): a named pipe beside main.asm,
+            # served once with the program text; whoever opens it again finds it empty
+            import threading
+            fifo = os.path.join(srcdir, 'main_piped.asm')
+            os.mkfifo(fifo)
+            stop = threading.Event()
+            text = open(main, 'rb').read()
+
+            def feed():
+                first = True
+                while not stop.is_set():
+                    try:
+                        fd = os.open(fifo, os.O_WRONLY | os.O_NONBLOCK)
+                    except OSError:
+                        time.sleep(0.005)          # nobody has it open for reading (yet)
+                        continue
+                    try:
+                        if first:
+                            os.set_blocking(fd, True)
+                            os.write(fd, text) if len(text) < 60000 else [os.write(fd, text[i:i + 60000]) for i in range(0, len(text), 60000)]
+                            first = False
+                    except OSError:
+                        pass
+                    finally:
+                        os.close(fd)
+                    time.sleep(0.02)
+            feeder = threading.Thread(target=feed, daemon=True)
+            feeder.start()
+            args[0] = fifo
+            acc['ctr']['inputs_read_from_a_pipe'] += 1
+        try:
+            r = cli.run_cli(args, cwd)
+        finally:
+            if feeder is not None:
+                stop.set()
+                feeder.join(timeout=5)
         acc['ctr']['success_runs'] += 1
         acc['ntkeys'].add(core.ckey('s', tuple(sorted((k, str(v)) for k, v in case.items()))))
         core.see(acc, 'option_cells', 'c%d i%d o%d l%d hex%s defs%d big%d' % (compress, case['ninc'], case['explicit_o'], case['labels'], case['hex'], case['defs'], case['big']))
